@@ -58,13 +58,21 @@ Example c01_two_callers :
 Proof. vm_compute. auto. Qed.
 
 (* ---- the EXECUTABLE system (see Props/C05.v, c05_exec_refines) ----
-   For every label sequence of the fault-free fragment, the results the callers are handed, in the
-   order they are handed out, are the server's replies (echo, ACK, binary ... split as raw_command
-   does) to a PREFIX of the issued requests in issue order: every caller gets the decoded reply to
-   its own request line, no reply is skipped, duplicated or given to another caller. *)
+   For every label sequence of the fault-free fragment — single commands AND command lists —, the
+   results the callers are handed, in the order they are handed out, are the server's replies (echo,
+   ACK, binary ...; for a list: the frames of the commands that succeeded, then the error if one
+   failed — [res_of]) to a PREFIX of the issued requests in issue order: every caller gets the
+   decoded reply to its own request, no reply is skipped, duplicated or given to another caller. *)
 Theorem c01_exec_own_replies : forall cf labs gls, in_fragment cf labs gls ->
   exists k, flat_map g_res (snd (xrun (xinit cf) labs)) = map (echo_result cf) (firstn k (flat_map issued_of gls)).
 Proof. exact exec_own_replies. Qed.
+
+(* what the caller of a list is handed when its second command fails: the frame of the first, then the error *)
+Example c01_exec_partial_list :
+  res_of (list_bytes [b "status"; b "fail 5 x"; b "stats"]) (echo_reply ex_cf (list_bytes [b "status"; b "fail 5 x"; b "stats"])) =
+  CRAck (mkErr 5 1 (Some (b "fail")) (b "boom")) [mkFrame [(b "line", b "status")] None] /\
+  good ex_cf (GIssueL 7 [b "status"; b "fail 5 x"; b "stats"]) = true.
+Proof. split; vm_compute; reflexivity. Qed.
 
 Example c01_exec_example :
   flat_map g_res (snd (xrun (xinit ex_cf) ex_labs)) =
